@@ -79,6 +79,11 @@ SOFTWARE, EVEN IF ADVISED OF THE POSSIBILITY OF SUCH DAMAGE.
       switch (e) \
       { \
       case ERROR_INSUFFICIENT_MEMORY: \
+        for (int i = 0; i <= compiler->loop_index; i++) \
+        { \
+          loop_vars_cleanup(i); \
+        } \
+        compiler->loop_index = -1; \
         YYABORT; \
       default: \
         YYERROR; \
